@@ -9,8 +9,11 @@ use std::sync::mpsc::{channel, Receiver, Sender};
 use std::sync::{Arc, Mutex};
 use std::thread::Thread;
 
-pub const MAXT: usize = 8;
-const PROBE: usize = 100;
+/// upper bound on the threads of one execution (array sizes); a pool has `DEFAULT_WORKERS` worker
+/// threads unless it is made with `Pool::with_workers`
+pub const MAXT: usize = 160;
+pub const DEFAULT_WORKERS: usize = 8;
+const PROBE: usize = usize::MAX - 1;
 const NOBODY: usize = usize::MAX;
 
 const ST_RUNNABLE: u8 = 1;
@@ -136,6 +139,8 @@ struct Inner {
     trace: Vec<TraceEnt>,
     record_trace: bool,
     op_steps: [u64; MAXT],
+    /// thread-relative preemptions: (thread, steps into its current operation, target), each used once
+    relative: Vec<(u8, u64, u8, bool)>,
     after_unlock: bool,
     rng: u64,
     random_gap: u32,
@@ -361,6 +366,12 @@ impl Sched {
         if inn.next_switch < inn.switches.len() && inn.switches[inn.next_switch].0 == step {
             target = Some(inn.switches[inn.next_switch].1 as usize);
             inn.next_switch += 1;
+        } else if let Some(r) = {
+            let os = inn.op_steps[me];
+            inn.relative.iter_mut().find(|r| !r.3 && r.0 as usize == me && r.1 == os)
+        } {
+            r.3 = true;
+            target = Some(r.2 as usize);
         } else if inn.random_gap > 0 && step >= inn.next_random {
             let gap = 1 + next_rand(&mut inn.rng) % (2 * inn.random_gap as u64);
             inn.next_random = step + gap;
@@ -644,10 +655,17 @@ fn spawn_worker(name: String) -> (Sender<Job>, Thread) {
 
 impl Pool {
     pub fn new() -> Pool {
+        Pool::with_workers(DEFAULT_WORKERS)
+    }
+    pub fn workers(&self) -> usize {
+        self.txs.len()
+    }
+    pub fn with_workers(n: usize) -> Pool {
+        assert!(n >= 1 && n <= MAXT);
         install_hooks();
         let mut txs = Vec::new();
         let mut handles = Vec::new();
-        for i in 0..MAXT {
+        for i in 0..n {
             let (tx, h) = spawn_worker(format!("fvh-w{}", i));
             txs.push(tx);
             handles.push(h);
@@ -660,6 +678,9 @@ impl Pool {
 
 pub struct RunSpec {
     pub switches: Vec<(u64, u8)>,
+    /// thread-relative preemptions: when `thread` has performed `n` steps of its current operation,
+    /// switch to `target` (each entry fires once; what was performed is reported as absolute switches)
+    pub relative: Vec<(u8, u64, u8)>,
     /// (seed, mean gap between random preemptions); None = no random preemptions
     pub random: Option<(u64, u32)>,
     pub record_trace: bool,
@@ -670,7 +691,7 @@ pub struct RunSpec {
 }
 impl Default for RunSpec {
     fn default() -> Self {
-        RunSpec { switches: vec![], random: None, record_trace: false, probe: None, step_budget: 2_000_000, first: 0, sink: None }
+        RunSpec { switches: vec![], relative: vec![], random: None, record_trace: false, probe: None, step_budget: 2_000_000, first: 0, sink: None }
     }
 }
 
@@ -690,7 +711,7 @@ pub type Body = Box<dyn FnOnce(&Wk<'_>) + Send>;
 
 pub fn run(pool: &Pool, spec: RunSpec, bodies: Vec<Body>) -> RunOut {
     let n = bodies.len();
-    assert!(n >= 1 && n <= MAXT);
+    assert!(n >= 1 && n <= pool.txs.len(), "{} threads on a pool of {} workers", n, pool.txs.len());
     let (probe_sel, probe_fn) = match spec.probe {
         Some((s, f)) => (s, Some(f)),
         None => (ProbeSel::None, None),
@@ -709,6 +730,7 @@ pub fn run(pool: &Pool, spec: RunSpec, bodies: Vec<Body>) -> RunOut {
         inner: UnsafeCell::new(Inner {
             step: 0,
             switches: spec.switches,
+            relative: spec.relative.into_iter().map(|(a, b, c)| (a, b, c, false)).collect(),
             next_switch: 0,
             performed: Vec::new(),
             trace: Vec::new(),
